@@ -122,6 +122,7 @@ from .frequency import FrequencyAxis
 from .saveable import Saveable
 from .datasaveable import DataSaveable
 from .. import REAL
+from .managers import energy_units
 
 
 #FIXME Check the posibility to set a derivative of the spline at the edges
@@ -735,8 +736,12 @@ class DFunction(Saveable, DataSaveable):
             w = t
             t = w.get_TimeAxis()
 
+            # the frequency step enters as a number in internal units,
+            # whatever the energy units of the caller are
+            with energy_units("int"):
+                wstep = w.step
             Y = numpy.fft.fftshift(numpy.fft.fft(
-            numpy.fft.ifftshift(y)))*w.step/(numpy.pi*2.0)
+            numpy.fft.ifftshift(y)))*wstep/(numpy.pi*2.0)
 
             if t.atype == "complete":
 
